@@ -305,7 +305,15 @@ def fam_redim(tier, rng):
                     again["noshared"] = True
                     again["shared"] = True          # the spec: it IS the shared array; the text does not say SHARED
                     main = [first, b.let(el(1), val), show(), b.call("G", []), show(), b.let(el(2), val), show()]
-                    subs = [sub("G", [], [again, b.let(el(4), val), b.print(lit("$", "g"), bound("u", "AR", t, num(1)))])]
+                    gbody = [again, b.let(el(4), val), b.print(lit("$", "g"), bound("u", "AR", t, num(1)))]
+                    if not fixn and not ext:
+                        # an array of the same name and ANOTHER type in the SUB is an array of its own
+                        ot = "$" if t != "$" else "I"
+                        od = b.dim("AR", ot, [dimspec(0, 3)])
+                        od["redim"] = True
+                        oe = idx("AR", ot, [lit("I", 1)])
+                        gbody += [od, b.let(oe, lit("$", "other") if ot == "$" else lit("I", 9)), b.print(lit("$", "o"), oe, bound("u", "AR", ot, num(1)), el(4))]
+                    subs = [sub("G", [], gbody)]
                 out.append({"fam": "redim:%s%d%s/%s/%s" % (t, fixn, "x" if ext else "", second, where), "prog": prog(main, subs)})
     return out
 
